@@ -223,7 +223,7 @@ def conds(tier):
     q = tier == "quick"
     t = (lambda x, y: x) if q else (lambda x, y: y)
     b = "N0 fixed; N1, sibling from a 3-name pool x 7 top-namespace choices%s" % (
-        " x third level x re-opened x serialization" if not q else "; third level / re-open / hollow / serialization derived")
+        " x third level x re-opened (serialization derived)" if not q else "; third level / re-open / hollow / serialization derived")
     return [xh.Cond("harness.c03_census", "c03_script_ignore", t(200, 600), kind="shape-bounded", examples=["top=1, ign=4, boost=0", "top=0, ign=0, boost=1"],
                     bounds="5 --top_module_namespaces values x 5 --ignore forms x serialization")] + [
         xh.Cond("harness.c03_census", f, t(420, 3600), kind="shape-bounded", path_timeout=90, examples=ex, bounds=b)
